@@ -13,6 +13,7 @@ import SharkVerif.Model.McSimplex
 import SharkVerif.Model.McBias
 import SharkVerif.Model.McLinear
 import Driver.C16L
+import Driver.C16E
 open SharkVerif.Mc SharkVerif.Gen
 
 def fbits (x : Float) : String := toString x.toBits.toNat
@@ -262,6 +263,7 @@ structure St where
   xf : Option (McSx Float) := none
   xq : Option (McSx Rat) := none
   ml : C16L.St := {}
+  ep : C16E.St := {}
   nuf : Nat → Row Float := fun _ => Row.empty
   nuq : Nat → Row Rat := fun _ => Row.empty
   xnuf : Nat → Row Float := fun _ => Row.empty
@@ -301,6 +303,9 @@ def parseInts (l : List String) : Option (List Int) := l.mapM String.toInt?
 
 def step (st : St) (line : String) : St × String :=
   let toks := (line.trimAscii.toString.splitOn " ").filter (· ≠ "")
+  match C16E.step { st.ep with ds := st.ml.ds } toks with
+  | some (ep', o) => ({ st with ep := ep' }, o)
+  | none =>
   match C16L.step st.ml toks with
   | some (ml', o) => ({ st with ml := ml' }, o)
   | none =>
